@@ -1,0 +1,149 @@
+// Copyright 2019 The Scriggo Authors. All rights reserved.
+// Use of this source code is governed by a BSD-style
+// license that can be found in the LICENSE file.
+
+//go:build verif
+
+// Contracts for the deductive verifier in /verif (govc). This file is compiled
+// only with the "verif" build tag. The //@ comment blocks are the contracts;
+// the Go functions are executable specification functions used by them.
+
+package compiler
+
+// ---- specification helpers (interpreted by govc) ----
+
+func old[T any](x T) T   { return x }
+func imp(a, b bool) bool { return !a || b }
+func forall(lo, hi int, p func(int) bool) bool {
+	for k := lo; k < hi; k++ {
+		if !p(k) {
+			return false
+		}
+	}
+	return true
+}
+func exists(lo, hi int, p func(int) bool) bool {
+	for k := lo; k < hi; k++ {
+		if p(k) {
+			return true
+		}
+	}
+	return false
+}
+func rangeIndex(n int) int { return 0 }
+
+// ---------------------------------------------------------------------------
+// lexer.go (C04: no panic, termination; C21: byte offsets)
+//
+// Lexer invariant used as pre/postcondition everywhere: l.src is a suffix of
+// l.text, so len(l.src) <= len(l.text); lexing only ever shortens l.src.
+// ---------------------------------------------------------------------------
+
+func lexOK(l *lexer) bool { return len(l.src) <= len(l.text) }
+
+//@ func (*lexer).newline
+//@   props C04
+
+//@ func (*lexer).errorf
+//@   props C04 C21
+//@   requires lexOK(l)
+//@   ensures[C21] result.pos.Start == len(l.text)-len(l.src) && result.pos.End == result.pos.Start
+//@   ensures[C21] 0 <= result.pos.Start && result.pos.Start <= len(l.text)
+//@   ensures result != nil
+//@   ensures len(l.src) == old(len(l.src)) && len(l.text) == old(len(l.text))
+
+//@ func (*lexer).emit
+//@   props C04
+//@   requires lexOK(l)
+//@   requires 0 <= length && length <= len(l.src)
+//@   ensures len(l.src) == old(len(l.src)) - length && len(l.text) == old(len(l.text))
+
+// Offsets of the emitted token (C21): Start is the distance consumed so far,
+// End = Start+length-1 lies inside the text for a non-empty token.
+//@ func (*lexer).emitAtLineColumn
+//@   props C04 C21
+//@   requires lexOK(l)
+//@   requires 0 <= length && length <= len(l.src)
+//@   ensures len(l.src) == old(len(l.src)) - length && len(l.text) == old(len(l.text))
+//@   ensures[C21] length > 0 ==> start == old(len(l.text)-len(l.src)) && end == start+length-1
+//@   ensures[C21] length > 0 ==> 0 <= start && start <= end && end < len(l.text)
+//@   ensures[C21] length == 0 && typ != tokenSemicolon ==> start == old(len(l.text)-len(l.src)) && end == start && start <= len(l.text)
+
+//@ func (*lexer).scanCodeBlock
+//@   props C04
+//@   requires 0 <= p
+//@   ensures p <= result && (result <= len(l.src) || result == p)
+
+//@ func (*lexer).scanTag
+//@   props C04
+//@   requires 0 <= p && p <= len(l.src)
+//@   ensures old(p) <= result1 && result1 <= len(l.src)
+//@   ensures len(l.src) == old(len(l.src)) && len(l.text) == old(len(l.text))
+//@   loop 0
+//@     invariant s < p && p <= len(l.src) && s >= 0 && s == old(p)
+//@     decreases len(l.src) - p
+
+//@ func (*lexer).scanAttribute
+//@   props C04
+//@   requires 0 <= p && p <= len(l.src)
+//@   ensures old(p) <= result1 && result1 <= len(l.src)
+//@   ensures len(l.src) == old(len(l.src)) && len(l.text) == old(len(l.text))
+//@   loop 0
+//@     invariant 0 <= s && s <= p && p <= len(l.src)
+//@     decreases len(l.src) - p
+//@   loop 1
+//@     invariant 0 <= s && s <= p && p <= len(l.src)
+//@     decreases len(l.src) - p
+//@   loop 2
+//@     invariant 0 <= s && s <= p && p <= len(l.src)
+//@     decreases len(l.src) - p
+
+//@ func isMarkdownStartURL
+//@   props C04
+
+//@ func isMarkdownEndURL
+//@   props C04
+
+//@ func isEndStyle
+//@   props C04
+
+//@ func isEndScript
+//@   props C04
+
+//@ func (*lexer).lexComment
+//@   props C04
+//@   requires lexOK(l)
+//@   requires len(l.src) >= 2
+//@   ensures len(l.src) <= old(len(l.src)) && lexOK(l)
+//@   loop 0
+//@     invariant 2 <= p && p <= len(l.src) && nested >= -1
+//@     invariant nested == -1 ==> p >= 4
+//@     decreases len(l.src) - p
+//@   loop 1
+//@     invariant 2 <= i && p <= len(l.src)
+//@     decreases p - i
+
+//@ func skipRawSpaces
+//@   props C04
+//@   requires 0 <= p
+//@   ensures p <= result && (result <= len(src) || result == p)
+//@   loop 0
+//@     invariant old(p) <= p && (p <= len(src) || p == old(p))
+//@     decreases len(src) - p
+
+//@ func endRawIndex
+//@   props C04 C15
+//@   ensures -1 <= result && result < len(src)
+//@   ensures[C15] result >= 0 ==> result+1 < len(src) && src[result] == '{' && src[result+1] == '%'
+//@   loop 0
+//@     invariant 0 <= i
+//@     decreases len(src) - i
+
+//@ func (*lexer).skipRawContent
+//@   props C04 C15
+//@   requires lexOK(l)
+//@   ensures 0 <= result && result <= len(l.src)
+//@   ensures len(l.src) == old(len(l.src)) && len(l.text) == old(len(l.text))
+//@   loop 0
+//@     invariant 0 <= i && p <= len(l.src)
+//@     decreases p - i
